@@ -7,57 +7,57 @@ CLAIMED = {
     "C01": dict(
         level="exploration", design="§6 C01",
         technique="deterministic simulation: real App::run + ThreadPool on humsim's in-memory TCP and virtual clock, reference HTTP clients with explicit stream segmentation, seeded schedules and network faults, reference connection model as oracle",
-        text="Seeded search over application configurations, client scripts (1..8 clients, 1..6 requests each over methods x targets x versions x Connection x bodies x malformed kinds x idle gaps), explicit segmentations of the byte stream (one byte per segment up to several requests per segment), lock-step and pipelined pacing, endings (close/half-close/RST/truncation), short reads/writes, slow readers, latency, and thread schedules. Oracle: strict response-stream grammar, count/order, version/Date/Server/CORS/Content-Length/body, keep-alive disposition and self-delimitation, 400/408 mapping with virtual-time lower bound, panic isolation, handler log = requests sent. Sampling: a clean batch is evidence, not proof.",
+        text="Seeded search over application configurations, client scripts (1..8 clients, 1..6 requests each over methods x targets x versions x Connection x bodies x malformed kinds x idle gaps), explicit segmentations of the byte stream (one byte per segment up to several requests per segment), lock-step and pipelined pacing, endings (close/half-close/RST/truncation), short reads/writes, slow readers, latency, and thread schedules. Oracle: strict response-stream grammar, count/order, version/Date/Server/CORS/Content-Length/body, keep-alive disposition and self-delimitation, 400/408 mapping with virtual-time lower bound, panic isolation, handler log = requests sent. Sampling: a clean batch is evidence, not proof. Later additions: a 150 000-byte response route, a CORS configuration whose list entries are substrings of earlier ones, the Date window anchored per request at the segment carrying its last byte, short writes in the tokio transport.",
         note="Trusted: humsim scheduler and TCP model (reliable ordered byte stream; close with unread data modelled as orderly FIN; server-side receive window >= one client script); the reference HTTP grammar; both runtimes: the threaded one under the humsim thread scheduler, the tokio one (twin phase C01T, engine humsim-tk) on a paused current_thread runtime over humsim::tokio_net."),
     "C02": dict(
         level="exploration", design="§6 C02",
         technique="deterministic simulation of the byte source: Request::from_stream over a scripted reader whose read-size plan (every split point, bytewise, random chunkings, EINTR) is the schedule; reference request model as oracle; serialise-parse round trip",
-        text="Generated well-formed request models (methods, paths, queries, 0..60 headers with repeated names in random case, UTF-8 values, Cookie and X-Forwarded-For lists, bodies to 64 KiB, lines over 8 KiB) parsed under every two-chunk split of messages <= 2 KiB plus bytewise/random/EINTR plans; parsed fields must equal the model under every plan and survive serialise+parse. Split points of each sampled message are enumerated; models are sampled.",
+        text="Generated well-formed request models (methods, paths, queries, 0..60 headers with repeated names in random case, UTF-8 values, Cookie and X-Forwarded-For lists, bodies to 64 KiB, lines over 8 KiB) parsed under every two-chunk split of messages <= 2 KiB plus bytewise/random/EINTR plans; parsed fields must equal the model under every plan and survive serialise+parse. Split points of each sampled message are enumerated; models are sampled. Later additions: the colon of a header line followed by one space / nothing / a tab / two spaces, header names in random per-letter case, get_cookie looked up for every name, suffix, embedded k= and an absent name on cookie lists with overlapping names and values.",
         note="Trusted: the reference model/renderer; sync parser and (twin phase C02T) the async parser over a scripted AsyncRead; at most one Cookie / X-Forwarded-For field per request."),
     "C03": dict(
         level="fault_enumeration", design="§6 C03",
         technique="fault injection at the parsers' byte sources (scripted reader, simulated socket, real include files): EOF/reset at every offset, every single-byte substitution and bit flip, delimiter deletion/doubling, boundary and huge length fields, UTF-8 at every slicing position, deep nesting; isolated worker processes with a counting allocator, 2 MiB stacks, read budgets and a watchdog",
-        text="For each target (request, response, frame, WebSocket message blocking/non-blocking, JSON, config+include) and each seed message every truncation offset and every single-byte mutant of the families is enumerated and delivered whole and bytewise; oracle: returns Ok/Err (no panic, abort, SIGSEGV), terminates within a read budget/watchdog, peak heap <= 64 KiB + 8x (512x for tree-building parsers) the bytes supplied. Seeds and multi-edit mutants are sampled.",
+        text="For each target (request, response, frame, WebSocket message blocking/non-blocking, JSON, config+include) and each seed message every truncation offset and every single-byte mutant of the families is enumerated and delivered whole and bytewise; oracle: returns Ok/Err (no panic, abort, SIGSEGV), terminates within a read budget/watchdog, peak heap <= 64 KiB + 8x (512x for tree-building parsers) the bytes supplied. Seeds and multi-edit mutants are sampled. Later additions: every contiguous span of 1..24 bytes deleted at every offset; 96 generated seed messages per target in the thorough tier.",
         note="Trusted: the counting allocator and the announce protocol that attributes a dead worker to a case; Value::parse has no I/O seam (its share is plain input generation); the 256 MiB single-allocation ceiling stands in for real memory exhaustion."),
     "C09": dict(
         level="fault_enumeration", design="§6 C09",
         technique="deterministic simulation with network fault injection: real proxy_request / proxy_handler against a scripted upstream on humsim's TCP (cut at every byte by FIN and RST, garbage, refuse, black-holed SYN, silence, accept-close, stall, late-stall, trickle), virtual-time deadline, real EqMutex<LoadBalancer> under seeded schedules",
-        text="For each generated valid upstream response (39 status codes; Content-Length / chunked / close-delimited / body-less) every byte offset is cut once by FIN and once by RST; plus the other fault behaviours and valid responses from closing and keep-alive upstreams, through proxy_request and through the server's proxy_handler. Oracle: returns within timeout + 100 ms + 10% of virtual time, never panics, valid response relayed (status, header multiset, body; chunked re-expressed as Content-Length), any fault gives 502, the upstream receives the request unchanged except stripped prefix and one added X-Forwarded-For, round-robin strictly in lock order.",
+        text="For each generated valid upstream response (39 status codes; Content-Length / chunked / close-delimited / body-less) every byte offset is cut once by FIN and once by RST; plus the other fault behaviours and valid responses from closing and keep-alive upstreams, through proxy_request and through the server's proxy_handler. Oracle: returns within timeout + 100 ms + 10% of virtual time, never panics, valid response relayed (status, header multiset, body; chunked re-expressed as Content-Length), any fault gives 502, the upstream receives the request unchanged except stripped prefix and one added X-Forwarded-For, round-robin strictly in lock order. Later additions: late-stall upstreams; route patterns /api/*, /*, /a/b/*, /api* with the literal prefix once, twice, three times, alone or again later in the path; 1..8 concurrent requests through the real proxy_handler with uses per target compared with strict rotation; framing header spellings as in C07.",
         note="Trusted: humsim TCP model (network RTT is small relative to the timeout: slowness is the upstream script's); reference request/response models; epochs 1970..2096."),
     "C10": dict(
         level="fault_enumeration", design="§6 C10",
         technique="scripted-reader simulation of Frame::from_stream: all 65 536 two-byte headers x read plans x truncation at every offset (EOF and reset), plus seeded random frames against a reference RFC 6455 codec",
-        text="Every two-byte frame header is enumerated with a complete remainder and decoded under whole/bytewise/every-split/random/EINTR read plans, and truncated at every offset; reserved opcodes must be rejected, truncations must be read errors, complete frames must decode to the reference frame with the payload unmasked. Random frames over FIN x RSV x opcode x mask x the boundary length set up to 1 MiB check the encoder against the reference layout and the round trip.",
+        text="Every two-byte frame header is enumerated with a complete remainder and decoded under whole/bytewise/every-split/random/EINTR read plans, and truncated at every offset; reserved opcodes must be rejected, truncations must be read errors, complete frames must decode to the reference frame with the payload unmasked. Random frames over FIN x RSV x opcode x mask x the boundary length set up to 1 MiB check the encoder against the reference layout and the round trip. Later additions: the all-zero, all-ones, single-bit and four-equal-bytes mask keys.",
         note="Trusted: reference codec; the cfg-gated hook humphrey_ws::verif only forwards to the private Frame. Claimed lengths <= 1 MiB here (huge claims are C03's)."),
     "C11": dict(
         level="exploration", design="§6 C11",
         technique="deterministic simulation: real App + websocket_handler on humsim's TCP with a reference RFC 6455 client (own SHA-1/Base64), scripted frame streams with fragmentation/interleaved control frames, delivery cuts inside header/extended length/key, blocking and non-blocking handlers, seeded schedules",
-        text="Seeded client scripts of masked frames (text/binary/continuation/ping/pong/close, payloads to 70 KiB incl. the 125/126/65535/65536 boundaries, 1..5 fragments with interleaved control frames), any Sec-WebSocket-Key or none, byte-wise and header-splitting deliveries, endings by client Close / server drop / FIN / RST. Oracle: 101 with the reference accept key (no key: no upgrade), everything written after the 101 decodes as unmasked frames, server-side messages equal the reference reassembly, one Pong per Ping with the same payload, Close answered and reported, drop sends Close, nothing-yet only while no data frame has started to arrive (judged on the simulator's view of delivered bytes).",
+        text="Seeded client scripts of masked frames (text/binary/continuation/ping/pong/close, payloads to 70 KiB incl. the 125/126/65535/65536 boundaries, 1..5 fragments with interleaved control frames), any Sec-WebSocket-Key or none, byte-wise and header-splitting deliveries, endings by client Close / server drop / FIN / RST. Oracle: 101 with the reference accept key (no key: no upgrade), everything written after the 101 decodes as unmasked frames, server-side messages equal the reference reassembly, one Pong per Ping with the same payload, Close answered and reported, drop sends Close, nothing-yet only while no data frame has started to arrive (judged on the simulator's view of delivered bytes). Later additions: server-initiated messages after idle polls, slow-reading clients, a non-blocking-then-blocking handler mode, a Close between the fragments of a message, empty first fragments and empty continuations, key lengths around every SHA-1 padding boundary, the all-zero mask key.",
         note="Trusted: reference codec/handshake; humsim TCP; a Close may be answered by any well-formed Close."),
     "C12": dict(
         level="exploration", design="§6 C12",
         technique="deterministic simulation: the real AsyncWebsocketApp::run (poll loop, handler pool, front App, linked and unlinked) under the humsim scheduler with reference WebSocket clients, virtual-time poll intervals and heartbeat timeouts, partitioned (silent) peers, an external AsyncSender thread, shutdown signal",
-        text="Seeded scenarios of 1..8 clients (connect times, plain/unicast-requesting/broadcast-requesting messages incl. fragmented ones and bursts within one poll interval, pings, endings by Close / FIN / silence / staying), external unicasts and broadcasts, handler pools 1..8, poll 1..10 ms, heartbeat on/off, under seeded schedules. Oracle over the handler event log and each client's received frames: connect exactly once, every owed message dispatched exactly once, disconnect exactly once per closed client (Close frame or heartbeat timeout) and never for a live one, per-client order with a one-thread pool, unicast only to its addressee, broadcast never twice and exactly once to clients connected throughout, run returns within poll interval + 1 s of the shutdown signal.",
+        text="Seeded scenarios of 1..8 clients (connect times, plain/unicast-requesting/broadcast-requesting messages incl. fragmented ones and bursts within one poll interval, pings, endings by Close / FIN / silence / staying), external unicasts and broadcasts, handler pools 1..8, poll 1..10 ms, heartbeat on/off, under seeded schedules. Oracle over the handler event log and each client's received frames: connect exactly once, every owed message dispatched exactly once, disconnect exactly once per closed client (Close frame or heartbeat timeout) and never for a live one, per-client order with a one-thread pool, unicast only to its addressee, broadcast never twice and exactly once to clients connected throughout, run returns within poll interval + 1 s of the shutdown signal. Later additions: no poll interval at all (fair schedules only), heartbeat timeouts of 1.5x and 2x the interval, slow-reading clients with 3..60 KB external messages, clients that close their socket outright (server writes then fail), a close landing on the heartbeat deadline, client pairs sharing an IP, per-run iteration order of the streams map.",
         note="Trusted: humsim scheduler/clock/TCP; iteration order of the streams map keyed per run from the entropy stream; a spinning poll loop (no interval) only under fair schedules; ordering asserted strictly only with one handler thread; messages of a client that closed its socket outright are owed at most once."),
     "C16": dict(
         level="exploration", design="§6 C16",
         technique="deterministic simulation: 1..8 threads through the real RwLock<Cache> under the humsim scheduler with a virtual wall clock (jumps onto second boundaries and age limits); linearisation by in-lock sequence numbers; reference model = the property; handler level over real files",
-        text="Seeded histories of set/get/sweep/clock-advance through the real Cache behind the hooked RwLock, checked in lock order against a model that only knows the property (latest bytes+MIME for the same (host,path), never older than the limit, retrievable total <= size limit, hit right after an in-limit store); one case in eight drives the real file/directory handlers with files rewritten between requests.",
+        text="Seeded histories of set/get/sweep/clock-advance through the real Cache behind the hooked RwLock, checked in lock order against a model that only knows the property (latest bytes+MIME for the same (host,path), never older than the limit, retrievable total <= size limit, hit right after an in-limit store); one case in eight drives the real file/directory handlers with files rewritten between requests. Later additions (handler level): two directory routes with equal relative file names and an index file each, and a file route whose uri equals a relative name; sizes at the limit and limit-1 favoured.",
         note="Trusted: humsim RwLock/clock; forward clock jumps only; with several threads handler-level staleness is not bounded (read-then-store is not atomic), only foreign bytes/wrong type are checked there."),
     "C17": dict(
         level="exploration", design="§6 C17",
         technique="deterministic simulation with a virtual wall clock under humphrey-auth's session expiry (clock moved to expiry-1s / expiry / expiry+1s), real Argon2/OsRng, auth-route requests over the simulated network, reference session model checked after every step",
-        text="Seeded histories of up to 60 operations over 1..5 users (create/remove user, verify right/wrong/other/unknown, create session default/0/long, refresh, invalidate by token/user, get_uid_by_token, authenticated route with valid/stale/absent cookie, clock advances onto expiry boundaries), with and without pepper, every return value compared with a reference model; tokens must be 64 hex digits and never repeat.",
+        text="Seeded histories of up to 60 operations over 1..5 users (create/remove user, verify right/wrong/other/unknown, create session default/0/long, refresh, invalidate by token/user, get_uid_by_token, authenticated route with valid/stale/absent cookie, clock advances onto expiry boundaries), with and without pepper, every return value compared with a reference model; tokens must be 64 hex digits and never repeat. Later additions: the empty password, a prefix and another case of the right password for live, removed, unknown and empty uids; never-issued near misses of real tokens (upper case, prefix, trailing space, empty); uids, salts and tokens drawn from the run's entropy stream.",
         note="Trusted: the two hooks in humphrey-auth (UNIX_EPOCH.elapsed -> virtual wall clock; OsRng and Uuid::new_v4 -> the run's entropy stream); single driver thread (the property quantifies over histories)."),
     "C04": dict(
         level="exploration", design="§6 C04",
         technique="deterministic simulation: generated applications (host sub-apps, HTTP and WebSocket routes) served by the real App on the simulated network to 1..4 concurrent keep-alive connections; reference first-match router over an independent DP glob matcher",
-        text="Seeded generation of applications and request sequences (Host absent/exact/wildcard/with port/non-matching; paths matching several, one or no routes; queries; upgrade requests) with every handler answering its identity, observed at every position of a connection's history and under concurrency and seeded schedules; the answer must be the reference router's. Dominated by seeded configuration/input generation (stated in the evidence); sampling, not enumeration.",
+        text="Seeded generation of applications and request sequences (Host absent/exact/wildcard/with port/non-matching; paths matching several, one or no routes; queries; upgrade requests) with every handler answering its identity, observed at every position of a connection's history and under concurrency and seeded schedules; the answer must be the reference router's. Dominated by seeded configuration/input generation (stated in the evidence); sampling, not enumeration. Both runtimes (tokio as twin phase C04T).",
         note="Trusted: the reference router and DP glob matcher; origin-form targets; both runtimes (the tokio one as twin phase C04T)."),
     "C07": dict(
         level="exploration", design="§6 C07",
         technique="deterministic simulation: (a) Response serialisation checked by a strict reference grammar and parsed back over a scripted reader (every split point); (b)(c) the real Client inside the simulator against scripted conforming servers on port 80 of simulated hosts, all chunk compositions for bodies <= 6 bytes, stream segmentations, redirect chains across hosts",
-        text="All 63 compositions x 2 hex cases of chunked bodies up to 6 bytes are enumerated against the real Client; seeded cases cover responses over all 39 status codes / 0..40 headers / Set-Cookie attribute subsets / bodies to 64 KiB (serialise, strict grammar, parse back under every split point of messages <= 600 bytes), the Client against Content-Length / chunked / close-delimited / body-less responses from closing and keep-alive servers under segmentation, and redirect chains 0..5 over {301,302,307} with relative and absolute Location across 4 simulated hosts.",
+        text="All 63 compositions x 2 hex cases of chunked bodies up to 6 bytes are enumerated against the real Client; seeded cases cover responses over all 39 status codes / 0..40 headers / Set-Cookie attribute subsets / bodies to 64 KiB (serialise, strict grammar, parse back under every split point of messages <= 600 bytes), the Client against Content-Length / chunked / close-delimited / body-less responses from closing and keep-alive servers under segmentation, and redirect chains 0..5 over {301,302,307} with relative and absolute Location across 4 simulated hosts. Later additions: framing header names in four spellings and four colon separators in the scripted servers; a client that needs 25 virtual s or more against a keep-alive server holding the connection for 30 s is flagged.",
         note="Trusted: reference grammar/servers; RFC 2616 reason phrases accepted for 413/414/416; servers key on the path (query ignored)."),
     "C08": dict(
         level="exploration", design="§6 C08",
@@ -69,13 +69,13 @@ CLAIMED = {
 CLAIMED["C19"] = dict(
     level="exploration", design="§6 C19",
     technique="deterministic simulation: the whole humphrey_server::server::main from a generated Config on humsim's network, clients connecting from arbitrary IPv4/IPv6 source addresses (only a simulated network allows that), scripted upstream for proxy routes, cache warming histories, seeded schedules",
-    text="Seeded configurations (block/forbidden x list contents x file/directory/proxy/redirect routes x cache on/off x threads) and clients from chosen addresses sending keep-alive request sequences with X-Forwarded-For absent or naming listed/unlisted addresses. Oracle: listed peer in block mode never receives a byte; listed peer or listed forwarded origin in forbidden mode gets 403 and never the route's content whatever headers it sends; all-unlisted clients are served the exact file / directory file / upstream response / redirect.",
+    text="Seeded configurations (block/forbidden x list contents x file/directory/proxy/redirect routes x cache on/off x threads) and clients from chosen addresses sending keep-alive request sequences with X-Forwarded-For absent or naming listed/unlisted addresses. Oracle: listed peer in block mode never receives a byte; listed peer or listed forwarded origin in forbidden mode gets 403 and never the route's content whatever headers it sends; all-unlisted clients are served the exact file / directory file / upstream response / redirect. Later additions: sub-directory without/with trailing slash and a missing file on the directory route; IPv4 clients on a dual-stack [::] listener (peers seen as ::ffff:a.b.c.d).",
     note="Trusted: humsim TCP (peer addresses are whatever the harness chooses); real std::fs on a scratch directory; a listed intermediate forwarding entry may be refused or served.")
 
 CLAIMED["C20"] = dict(
     level="exploration", design="§6 C20",
     technique="deterministic simulation: the real App::run with a shutdown receiver under the humsim scheduler, 0..16 connections scripted into chosen states at the virtual instant of the signal, pools incl. fully occupied ones, rendezvous and unbounded channels, unspecified bind addresses with the strict-connect knob, rebind after return",
-    text="Seeded traffic states at the instant of the signal (just connected, idle keep-alive, half-sent request, handler running 5 ms / 2 s, 150 KB response to a 512-byte-window reader, WebSocket open), signal before run / before the first connection / with traffic / with the pool occupied. Oracle: run returns Ok within 1 virtual second of the signal, the address can be bound again, a response that started arrives completely, requests fully sent >= 100 virtual ms before the signal are answered (detached workers keep running in the simulation).",
+    text="Seeded traffic states at the instant of the signal (just connected, idle keep-alive, half-sent request, handler running 5 ms / 2 s, 150 KB response to a 512-byte-window reader, WebSocket open), signal before run / before the first connection / with traffic / with the pool occupied. Oracle: run returns Ok within 1 virtual second of the signal, the address can be bound again, a response that started arrives completely, requests fully sent >= 100 virtual ms before the signal are answered (detached workers keep running in the simulation). Later additions: the sender of the shutdown channel is kept alive until the scenario ends (a signal sent before run starts waiting must still end it).",
     note="Trusted: humsim scheduler/TCP/clock; threaded runtime (mpsc receiver) and, as twin phase C20T, the tokio runtime (CancellationToken).")
 
 NA = {
